@@ -184,6 +184,16 @@ def customs(rng, tier):
                            ["accept", "c2", 2500], ["recv", "c2", 1, 1000], ["send", "c2", OP, 0], ["send", "c2", KA, 0], ["recv", "c2", 2, 1000],
                            ["sleep", 20], ["api", api]], idle_hold_ms=100, connect_retry_ms=300))
         sid += 1
+        # the reader is blocked in the middle of a message body (complete header, part of the body) when the stop arrives
+        part = S.frame(S.UPDATE, bytes(64))[:40]
+        out.append(Custom(sid, "stop.reader-mid-body.established." + api,
+                          [["dial", "c1"], ["recv", "c1", 1, 1000], ["send", "c1", OP, 0], ["send", "c1", KA, 0], ["recv", "c1", 2, 1000],
+                           ["sleep", 20], ["send", "c1", part.hex(), 0], ["sleep", 30], ["api", api]], passive=True))
+        sid += 1
+        out.append(Custom(sid, "stop.reader-mid-body.opensent." + api,
+                          [["accept", "c1", 2000], ["recv", "c1", 1, 1000], ["send", "c1", S.frame(S.OPEN, S.open_body())[:25].hex(), 0],
+                           ["sleep", 30], ["api", api]]))
+        sid += 1
         # both connections up (collision in progress, no forcing)
         out.append(Custom(sid, "stop.two-connections." + api,
                           [["accept", "cO", 2000], ["recv", "cO", 1, 1000], ["dial", "cI"], ["recv", "cI", 1, 1000],
